@@ -366,3 +366,73 @@ Proof.
   { destruct V as [|v V'] eqn:EV; [rewrite (Hz' eq_refl); rewrite EL3 in HT; exact HT|apply HT'; discriminate]. }
   split; [apply map_app|]. rewrite ED. apply dict_del_members_all.
 Qed.
+
+(* ---------------------------------------------------------------- one call, all calls *)
+(* queries whose results are proved equal so far *)
+Definition covered (o : op) : bool :=
+  match o with
+  | Add _ _ | Remove _ | RemByScore _ _ | RemByRank _ _ | GetScore _ | Len => true
+  | _ => false
+  end.
+
+Lemma lstep_sim l z0 st o : Sim l z0 -> Inv z0 st ->
+  let '(l', lo) := lstep l o in
+  let '(z', o') := step z0 o in
+  Sim l' z' /\ (covered o = true -> lo = o').
+Proof.
+  intros HS HInv. destruct o as [e s|e|a b|a b|a b|e r|e|a b r|a b r|]; cbn [lstep step covered].
+  - pose proof (ladd_sim l z0 st e s HS HInv) as H.
+    destruct (ladd l e s) as [l' lo]. destruct (add z0 e s) as [z' o']. tauto.
+  - pose proof (lremove_sim l z0 st e HS HInv) as H.
+    destruct (lremove l e) as [l' lo]. destruct (remove z0 e) as [z' o']. tauto.
+  - pose proof (lrem_by_score_sim l z0 st a b HS HInv) as H.
+    destruct (lrem_by_score l a b) as [l' lo]. destruct (rem_by_score z0 a b) as [z' o']. tauto.
+  - pose proof (lrem_by_rank_sim l z0 st a b HS HInv) as H.
+    destruct (lrem_by_rank l a b) as [l' lo]. destruct (rem_by_rank z0 a b) as [z' o']. tauto.
+  - split; [exact HS|discriminate].
+  - split; [exact HS|discriminate].
+  - split; [exact HS|]. intros _. destruct HS as (L & _ & _ & _ & ED). unfold get_score. simpl. rewrite ED. reflexivity.
+  - split; [exact HS|discriminate].
+  - split; [exact HS|discriminate].
+  - split; [exact HS|]. intros _. destruct HS as (L & HI & _ & EL & _).
+    rewrite (inv_len (lz l) _ HI), <- EL. unfold zlen. rewrite map_length. reflexivity.
+Qed.
+
+Lemma lrun_sim ops : forall l z0 st, Sim l z0 -> Inv z0 st ->
+  let '(l', los) := lrun l ops in
+  let '(z', os) := run z0 ops in
+  Sim l' z' /\ Forall2 (fun o xy => covered o = true -> fst xy = snd xy) ops (combine los os).
+Proof.
+  induction ops as [|o ops IH]; intros l z0 st HS HInv; cbn [lrun run].
+  - split; [exact HS|constructor].
+  - pose proof (lstep_sim l z0 st o HS HInv) as H1.
+    pose proof (step_refines z0 st o HInv) as H2.
+    destruct (lstep l o) as [l1 lo]. destruct (step z0 o) as [z1 o1]. destruct (spec_step st o) as [st1 y].
+    destruct H1 as [HS1 Hout]. destruct H2 as [_ HInv1].
+    specialize (IH l1 z1 st1 HS1 HInv1).
+    destruct (lrun l1 ops) as [l2 los]. destruct (run z1 ops) as [z2 os].
+    destruct IH as [HS2 Hall]. split; [exact HS2|]. simpl. constructor; [exact Hout|exact Hall].
+Qed.
+
+(* for ALL operation sequences and ALL height oracles: the skip list with its lanes keeps
+   the structural invariant, its level-0 chain is the list of the level-0 model and its
+   member table is the level-0 model's *)
+Theorem lane_model_invariant (orc : list nat) (ops : list op) :
+  let l := fst (lrun (lzempty orc) ops) in
+  let z0 := fst (run empty ops) in
+  exists L, LInv (lz l) L /\ LTight (lz l) L /\ map ent L = zsl z0 /\ ldict l = dict z0.
+Proof.
+  pose proof (lrun_sim ops (lzempty orc) empty [] (Sim_empty orc) Inv_empty) as H.
+  destruct (lrun (lzempty orc) ops) as [l los]. destruct (run empty ops) as [z os].
+  exact (proj1 H).
+Qed.
+
+Theorem lane_model_results_partial (orc : list nat) (ops : list op) :
+  let los := snd (lrun (lzempty orc) ops) in
+  let os := snd (run empty ops) in
+  Forall2 (fun o xy => covered o = true -> fst xy = snd xy) ops (combine los os).
+Proof.
+  pose proof (lrun_sim ops (lzempty orc) empty [] (Sim_empty orc) Inv_empty) as H.
+  destruct (lrun (lzempty orc) ops) as [l los]. destruct (run empty ops) as [z os].
+  exact (proj2 H).
+Qed.
